@@ -201,6 +201,25 @@ func WriteFile(path, content string) {
 	Must(os.WriteFile(path, []byte(content), 0o644))
 }
 
+// VerifRoot is the root of the verification framework checkout (parent of harness/): the directory the running
+// harness belongs to, so that worktrees and snapshots of the framework read their own corpus.
+func VerifRoot() string {
+	if d := os.Getenv("VERIF_ROOT"); d != "" {
+		return d
+	}
+	if b := os.Getenv("VERIF_BIN"); b != "" { // VERIF_BIN = <root>/work/bin
+		return filepath.Dir(filepath.Dir(b))
+	}
+	if exe, err := os.Executable(); err == nil {
+		if r := filepath.Dir(filepath.Dir(filepath.Dir(exe))); fileExists(filepath.Join(r, "corpus")) {
+			return r
+		}
+	}
+	return "/verif"
+}
+
+func fileExists(p string) bool { _, err := os.Stat(p); return err == nil }
+
 // BinDir is where bin/check builds the front-end binaries.
 func BinDir() string {
 	if d := os.Getenv("VERIF_BIN"); d != "" {
